@@ -21,7 +21,7 @@ CONSTANTS LeafIds,     \* subset of DOMAIN LeafTable
           BinIds,      \* subset of BinNames
           Depth,       \* 0, 1 or 2
           Nary,        \* TRUE: also 0-, 1- and 3-ary seq / choice / lift over the leaves
-          Alpha,       \* set of input characters
+          Alpha,       \* set of input characters ("BS" stands for the backslash)
           MaxLen
 
 a == "a"
@@ -75,7 +75,9 @@ Level(S, n) ==
          [x \in 1..(Len(Q) * Len(S)) |-> Append(Q[((x - 1) \div Len(S)) + 1], S[((x - 1) % Len(S)) + 1])]
 RECURSIVE UpTo(_, _)
 UpTo(S, n) == IF n = 0 THEN Level(S, 0) ELSE UpTo(S, n - 1) \o Level(S, n)
-InputList == UpTo(SetToSeq(Alpha), MaxLen)
+(* cfg files do not unescape strings: the backslash is written "BS" there *)
+AlphaSeq == LET A == SetToSeq(Alpha) IN [i \in DOMAIN A |-> IF A[i] = "BS" THEN Backslash ELSE A[i]]
+InputList == UpTo(AlphaSeq, MaxLen)
 
 ASSUME PrintT(<<"CASE", ToJson([first |-> TRUE, ws |-> InputList])>>)
 
